@@ -81,6 +81,13 @@ func TestC06(t *testing.T) {
 	forCases(n/4, 62, "h", func(i int, r *rng, id string) { timerHistory("C06", r, id) })
 	// suspicionTimeout (the minimum of the suspicion timer) against its integer model
 	forCases(8, 63, "sc", func(i int, r *rng, id string) { scaleLeg("C06", "susp", r, id, 0) })
+	// suspicion on the node's own evidence: the real probe round against silent, late and answering peers; the
+	// accusation it queues is signed by the node itself
+	c19Prop = "C06"
+	forCases(n/20, 64, "p", func(i int, r *rng, id string) {
+		synctest.Test(t, func(t *testing.T) { c19Probe(r, id) })
+	})
+	c19Prop = "C19"
 }
 
 // timerHistory: node-level histories around one member's suspicion: suspicion / refutation / re-suspicion /
